@@ -98,12 +98,12 @@ pub fn reconcile_path(
         (Some(av), None) => match base {
             None => Action::PropagateAtoB, // create A->B, never a delete
             Some(z) if Fingerprint::same(&av, &z) => Action::DeleteA, // A unchanged, B deleted
-            Some(_) => Action::DeleteA, // A modified, B deleted
+            Some(_) => Action::Conflict(ConflictKind::DeleteVsModify), // A modified, B deleted
         },
         // A absent: symmetric.
         (None, Some(bv)) => match base {
             None => Action::PropagateBtoA,
-            Some(z) if Fingerprint::same(&bv, &z) => Action::DeleteB,
+            Some(z) if bv.blake3 == z.blake3 => Action::DeleteB, // B unchanged, A deleted
             Some(_) => Action::Conflict(ConflictKind::DeleteVsModify),
         },
     }
